@@ -474,6 +474,95 @@ def split_rule(ctx, body, paths, al):
               "%s: only leading blanks after the command word may be removed from an argument" % (sorted(set(bada))[0] if bada else "no path produces an argument"), fn_span(body))
 
 
+def split_lines_form(ctx, body, paths):
+    """Plist::from_bytes written as
+           for line in bytes.split(|c| c == b'\n') { if line.iter().all(is_blank) { continue; }  entries.push(PlistEntry::from_bytes(line)?); }
+       Returns True when the function has this shape (and judges it: D3-LINE-GUARD / D3-TRANSFER / D2-PRODUCER instances), False otherwise.
+       The pieces of a split at '\n' are exactly the lines (an unterminated last line included, a final empty piece after a trailing newline is
+       blank); a line is skipped iff every byte of it is a blank; every other line is parsed as it is and pushed, in order."""
+    sp_ = [e for p in paths for e in p.events if ev_is(e, "[T]>::split") and strip_refs(e.args[0]) == ("param", 1)]
+    if not sp_:
+        return False
+    nx = [c for p in paths for c in p.conds() if c.term[0] == "discr" and is_call(strip_refs(c.term[1]), "slice::Split<'a, T, P> as std::iter::Iterator>::next", "slice::Split as std::iter::Iterator>::next")
+          and strip_refs(c.term[1])[4] in body.loops]
+    if not nx:
+        return False
+    NX = strip_refs(nx[0].term[1])
+    h = NX[4]
+    elem = ("field", ("downcast", NX, "Some"), 0, "0")
+    R = "D3-TRANSFER"
+    # the iterator is the split itself (nothing in between), the separator predicate is `== b'\n'`
+    it = call_args(NX)[0]
+    for _ in range(6):
+        while isinstance(it, tuple) and it and it[0] in ("ref", "refmut"):
+            it = it[1]
+        if isinstance(it, tuple) and it and it[0] == "loc" and len(it) > 2:
+            it = it[2]
+        elif isinstance(it, tuple) and it and it[0] == "havoc" and len(it) > 3:
+            it = it[3]
+        elif is_call(it, "IntoIterator>::into_iter") and call_args(it):
+            it = call_args(it)[0]
+        else:
+            break
+    direct = is_call(it, "[T]>::split") and strip_refs(call_args(it)[0]) == ("param", 1)
+    clo = strip_refs(call_args(it)[1]) if direct else None
+    tbl = char_table(ctx.paths(clo[2]) or [], is_param=lambda t_: strip_refs(t_) == ("param", 2), domain=BYTE_DOMAIN) if isinstance(clo, tuple) and clo[:2] == ("agg", "closure") else None
+    seps = sorted(ch for ch, v in (tbl or {}).items() if v)
+    ctx.check(direct and seps == ["\n"], R, PFB, "split-at-newline", "lines = bytes.split(|c| c == b'\\n') walked directly",
+              "the input is not walked as the pieces of a split at '\\n' alone (separator bytes: %s)" % [repr(x) for x in seps][:6], fn_span(body))
+    backs = [p for p in paths if p.end[0] == "back" and p.end[1] == h]
+    ctx.floor("D3-LINE-GUARD", PFB, "line-recording sites", len(backs), 2)
+    kinds = set()
+    for p in backs:
+        pushes = [e for e in p.events if ev_is(e, "Vec::push") and e.bb in body.loops[h]]
+        alls = [c for c in p.conds() if is_call(c.term, "Iterator>::all", "Iterator>::any") and c.bb in body.loops[h]]
+        other = [c for c in p.conds() if c.bb in body.loops[h] and c.term[0] != "discr" and c not in alls]
+        okq = len(alls) == 1 and not other
+        blank = None
+        if okq:
+            q = alls[0]
+            src = strip_refs(call_args(q.term)[0])
+            while isinstance(src, tuple) and src and src[0] in ("loc", "refmut", "ref"):
+                src = strip_refs(src[2] if src[0] == "loc" and len(src) > 2 else src[1])
+            okq = is_call(src, "[T]>::iter") and strip_refs(call_args(src)[0]) == elem
+            qc = strip_refs(call_args(q.term)[1])
+            qt = char_table(ctx.paths(qc[2]) or [], is_param=lambda t_: strip_refs(t_) == ("param", 2), domain=BYTE_DOMAIN) if isinstance(qc, tuple) and qc[:2] == ("agg", "closure") else None
+            if okq and qt is not None:
+                acc = {ch for ch, v in qt.items() if v}
+                if is_call(q.term, "Iterator>::all"):
+                    # all(is_blank) true = blank line
+                    okq = {" ", "\t"} <= acc and not (acc - ASCII_BLANKS)
+                    blank = q.fact == ("eq", True)
+                else:
+                    # any(is_not_blank) false = blank line
+                    nb = set(BYTE_DOMAIN) - acc
+                    okq = {" ", "\t"} <= nb and not (nb - ASCII_BLANKS)
+                    blank = q.fact == ("eq", False)
+            else:
+                okq = False
+        if not okq:
+            ctx.violation("D3-LINE-GUARD", PFB, "line-test", "a line is not kept / skipped by `every byte is an ASCII blank` alone", body.span_of(p.blocks[-1]))
+            continue
+        if blank:
+            kinds.add("skip")
+            ctx.check(not pushes, "D3-LINE-GUARD", PFB, "blank-line:skipped", "a blank line produces no entry", "an entry is produced for a blank line", body.span_of(p.blocks[-1]))
+        else:
+            kinds.add("keep")
+            okp = len(pushes) == 1 and mentions(pushes[0].args[0], lambda s_: s_[0] == "field" and s_[3] == "entries")
+            fb = find_calls(pushes[0].args[1], EFB) if okp else []
+            okp = okp and len(fb) == 1 and strip_refs(call_args(fb[0])[0]) == elem and has_try(pushes[0].args[1])
+            ctx.check(okp, "D2-PRODUCER", PFB, "push@entries", "entries.push(PlistEntry::from_bytes(line)?) for each non-blank line, as it is, in order (split-lines form)",
+                      "a non-blank line does not push exactly PlistEntry::from_bytes(<the whole line>)? onto the entries", body.span_of(p.blocks[-1]))
+    ctx.check(kinds == {"skip", "keep"}, "D3-LINE-GUARD", PFB, "both-arms", "blank lines skipped, other lines kept", "the line loop lacks the %s arm" % sorted({"skip", "keep"} - kinds), fn_span(body))
+    oks = [p for p in ret_paths(paths) if unwrap_ok(p.end[1]) is not None]
+    ctx.floor("D2-PRODUCER", PFB, "Ok-returning paths", len(oks), 1)
+    ctx.check(bool(oks) and all(any(c.term == nx[0].term and c.fact == ("eq", 0) for c in p.conds()) for p in oks), "D2-PRODUCER", PFB, "returns-after-exhaustion",
+              "Ok only after the last line", "from_bytes can return Ok before every line was looked at", fn_span(body))
+    only_appended(ctx, "D2-PRODUCER", PFB, "plist.entries", lambda t: mentions(t, lambda s: s[0] == "field" and s[3] == "entries"))
+    errprop(ctx, PFB, paths, body, rule="D2-ERRPROP", no_effects_after_error=("Vec::push",), floor=1)
+    return True
+
+
 def run(ctx):
     fx = ctx.fx
     sp = spec("plist.json")
@@ -755,6 +844,8 @@ def run(ctx):
             scan_call = SFN
     body = ctx.body(SFN)
     paths = ctx.paths(SFN)
+    if paths and not scan_call and split_lines_form(ctx, pbody, ppaths):
+        paths = None        # judged on the split-lines normal form
     if paths:
         # D3 guards
         guards = {}
